@@ -5,7 +5,7 @@ import sys,subprocess,shutil,os,json,tempfile,glob,concurrent.futures
 here=os.path.dirname(os.path.dirname(os.path.abspath(__file__)))
 env=dict(os.environ, GOFLAGS="-mod=mod", GOPROXY="off", GOSUMDB="off", GOTOOLCHAIN="local", GOWORK="off")
 reg=sorted({l.split()[0] for l in subprocess.check_output([here+"/bin/anycheck","-list"],text=True).splitlines()})
-dirs=sys.argv[1:] or sorted(glob.glob(here+"/benign/*"))
+dirs=sys.argv[1:] or sorted(d for d in glob.glob(here+"/benign/*") if os.path.isdir(d))
 def one(dname):
     patch=os.path.abspath(os.path.join(dname,"patch.diff"))
     d=tempfile.mkdtemp(prefix="anyrf-")
